@@ -420,9 +420,85 @@ def gen_extension(st, schema, counter):
         "extend type %s {\n  ext_new_%d: ExtNew%d\n}" % (k, q, q, k, k))
 
 
+def _input_arg_sites(schema):
+    """[(root field name, argument name, input object type name)] for root
+    query fields that take an input object (possibly wrapped) argument."""
+    out = []
+    q = schema.query_type
+    if q is None:
+        return out
+    for f in q.fields:
+        for a in f.arguments:
+            t = _named(a.type)
+            if isinstance(t, InputObjectType):
+                out.append((f.name, a.name, t.name, str(a.type)))
+    return out
+
+
+_INPUT_PAYLOADS = {
+    "Pt": {"x": 1, "y": 2, "tag": "t", "z": 3},
+    "Box": {"pt": {"x": 1, "tag": "t"}, "tags": ["a"], "shade": "RED"},
+}
+
+
+def _payload_for(schema, tname):
+    """A full object for input type ``tname`` (every field the type has NOW,
+    from a fixed palette)."""
+    t = schema.types.get(tname)
+    base = _INPUT_PAYLOADS.get(tname)
+    if t is None or base is None:
+        return None
+    have = {f.name for f in t.fields}
+    camel_have = {camel(k): k for k in base}
+    out = {}
+    for n in have:
+        if n in base:
+            out[n] = base[n]
+        elif n in camel_have:
+            out[n] = base[camel_have[n]]
+    return out
+
+
+def standing_request(schema):
+    """(text, variables): type conditions on every object type under the
+    composite root fields, and one variable per input-typed root argument --
+    the kind of persisted query a server keeps parsed."""
+    q = schema.query_type
+    sels = ["__typename"]
+    vardefs, variables = [], {}
+    for f in q.fields:
+        args = []
+        for a in f.arguments:
+            t = _named(a.type)
+            if isinstance(t, InputObjectType) and t.name in _INPUT_PAYLOADS:
+                v = "v%d" % len(vardefs)
+                vardefs.append("$%s: %s" % (v, a.type))
+                pl = _payload_for(schema, t.name)
+                variables[v] = [pl] if isinstance(
+                    a.type.type if isinstance(a.type, NonNullType)
+                    else a.type, ListType) else pl
+                args.append("%s: $%s" % (a.name, v))
+        call = "%s%s" % (f.name, "(%s)" % ", ".join(args) if args else "")
+        t = _named(f.type)
+        if isinstance(t, (ObjectType, InterfaceType, UnionType)):
+            if isinstance(t, ObjectType):
+                poss = [t]
+            else:
+                poss = sorted(schema.get_possible_types(t),
+                              key=lambda x: x.name)
+            inner = " ".join("... on %s { __typename }" % p.name
+                             for p in poss)
+            sels.append("%s { __typename %s }" % (call, inner))
+        elif args:
+            sels.append(call)
+    text = "query Standing%s { %s }" % (
+        "(%s)" % ", ".join(vardefs) if vardefs else "", " ".join(sels))
+    return text, variables
+
+
 class Live:
     __slots__ = ("schema", "fp", "attrs", "hidden", "renamed", "origin",
-                 "maybe_invalid")
+                 "maybe_invalid", "doc", "doc_text", "doc_vars")
 
     def __init__(self, schema, origin, hidden=(), renamed=False,
                  maybe_invalid=False):
@@ -432,7 +508,34 @@ class Live:
         self.renamed = renamed
         # applying schema directives does not validate its result
         self.maybe_invalid = maybe_invalid
+        self.doc = None
+        self.doc_text = None
+        self.doc_vars = None
         self.refresh()
+
+    def standing_problem(self):
+        """The standing (parsed once, kept) document must be answered exactly
+        like a fresh parse of the same text, at any time."""
+        from py_gql.lang import parse
+        if self.doc is None:
+            try:
+                self.doc_text, self.doc_vars = standing_request(self.schema)
+            except Exception:  # noqa: B902 - no usable root
+                return None
+            self.doc = parse(self.doc_text)
+        outs = []
+        for d in (self.doc, self.doc_text):
+            try:
+                r = graphql_blocking(self.schema, d,
+                                     variables=dict(self.doc_vars))
+                outs.append(("response", r.response()))
+            except SchemaValidationError:
+                outs.append(("schema-invalid",))
+            except Exception as err:  # noqa: B902
+                outs.append(("raised", type(err).__name__, str(err)[:200]))
+        if outs[0] != outs[1]:
+            return outs
+        return None
 
     def refresh(self):
         self.fp = _struct.describe(self.schema, identity=True)
@@ -506,16 +609,98 @@ def run_machine(draws, state, tier):
         if V:
             break
         op = st.weighted((3, 3, 2, 2, 3, 2, 2 if entry.kind == "sdl" else 0,
-                          2), "op")
+                          2, 2 if len(live) > 1 else 0), "op")
         # 0 clone, 1 visibility, 2 camelcase, 3 chained, 4 extend, 5 use,
         # 6 schema directives (applied to a clone of the target)
         li = st.below(len(live), "target")
         src = live[li]
         opname = ("clone", "visibility", "camelcase", "chained", "extend",
-                  "use", "directives", "configure")[op]
+                  "use", "directives", "configure", "in-place")[op]
         new = None
         hidden = None
         raised = None
+        if op == 8:
+            # a transform applied IN PLACE to a derived schema (documented
+            # for schema directives; visitors work the same way): the schema
+            # object stays, its types are replaced -- everything kept about
+            # it (a parsed document, caches) must follow
+            li = 1 + st.below(len(live) - 1, "inplace_on")
+            tgt = live[li]
+            if tgt.renamed or tgt.maybe_invalid:
+                continue
+            pb = tgt.standing_problem()  # the document is known before
+            if pb:
+                fail("standing_document", ("before-in-place", pb[0][0],
+                                           pb[1][0]), repr(pb)[:400])
+                break
+            how = st.below(2, "inplace_how")
+            if entry.kind != "sdl":
+                how = 1
+            try:
+                if how == 0:
+                    seq.append(("in-place", li, "directives"))
+                    newly = flagged_fields(tgt.schema)
+                    apply_schema_directives(tgt.schema,
+                                            [TagDirective, FlagDirective])
+                    tgt.maybe_invalid = True
+                else:
+                    names = sorted(
+                        n for n in gql_names(tgt.schema)
+                        if n[0] in ("type", "field", "input_field")
+                        and not n[1].startswith("__")
+                        and not (n[0] == "type" and n[1] in _struct.SPECIFIED)
+                        and not (tgt.schema.query_type is not None
+                                 and n[1] == tgt.schema.query_type.name))
+                    h = names[st.below(len(names), "inplace_hide")]
+                    seq.append(("in-place", li, h))
+                    newly = {h}
+                    Hide(h).on_schema(tgt.schema)
+            except GraphQLError:
+                res.count("op_refused:in-place")
+                tgt.maybe_invalid = True
+                tgt.refresh()
+                continue
+            except Exception as err:  # noqa: B902
+                fail("source_modified", ("in-place", "crashed"),
+                     "in-place transform of live[%d] raised %r" % (li, err))
+                break
+            res.count("op:in-place")
+            try:
+                from py_gql.schema.validation import validate_schema
+                validate_schema(tgt.schema)  # (not the memoised verdict)
+            except SchemaValidationError:
+                # nothing validates an in-place transform: hiding a type may
+                # leave an interface without implementation, a type empty...
+                tgt.maybe_invalid = True
+            tgt.hidden |= set(newly)
+            tgt.refresh()
+            pc = closure_problem(tgt.schema)
+            if pc:
+                fail("closure", ("in-place", "result", pc[0]),
+                     "in-place transform of live[%d] (%s): %s" % (
+                         li, tgt.origin, pc[1]))
+                break
+            pb = tgt.standing_problem()
+            if pb:
+                fail("standing_document", ("after-in-place", pb[0][0],
+                                           pb[1][0]),
+                     "live[%d] (%s) after an in-place transform: the kept "
+                     "document %r is answered %r, a fresh parse of its text "
+                     "%r" % (li, tgt.origin, tgt.doc_text, pb[0], pb[1]))
+                break
+            for oi, other in enumerate(live):
+                if other is tgt:
+                    continue
+                d = _struct.diff(other.fp, _struct.describe(other.schema,
+                                                            identity=True))
+                if d:
+                    what = [p for p in d[0] if isinstance(p, str)]
+                    fail("source_modified",
+                         ("in-place", what[0] if what else "?"),
+                         "an in-place transform of live[%d] changed live[%d] "
+                         "(%s) at %r" % (li, oi, other.origin, d[0]))
+                    break
+            continue
         if op == 7:
             # configure a derived schema (register a resolver on it): no other
             # live schema may notice
@@ -601,6 +786,13 @@ def run_machine(draws, state, tier):
             continue
         if op == 5:
             seq.append(("use", li))
+            pb = src.standing_problem()
+            if pb:
+                fail("standing_document", ("use", pb[0][0], pb[1][0]),
+                     "live[%d] (%s): the kept document %r is answered %r, a "
+                     "fresh parse of its text %r" % (
+                         li, src.origin, src.doc_text, pb[0], pb[1]))
+                break
             try:
                 graphql_blocking(src.schema, "{ __typename }")
                 src.schema.to_string()
@@ -730,6 +922,39 @@ def run_machine(draws, state, tier):
                     fail("removed_reachable", ("field", "query"),
                          "hidden root field %r can still be queried" % fname)
                     break
+            if hidden is not None and hidden[0] == "input_field" and \
+                    not src.maybe_invalid:
+                # the hidden input field handed in through a VARIABLE
+                fname_h = camel(hidden[2]) if op == 3 else hidden[2]
+                sites = [x for x in _input_arg_sites(new)
+                         if x[2] == hidden[1]]
+                if sites:
+                    qf, an, tn, tstr = sites[0]
+                    payload = _payload_for(new, tn) or {}
+                    payload[fname_h] = 1
+                    wrap = "[" in tstr
+                    rt = _named(new.query_type.field_map[qf].type)
+                    sub = " { __typename }" if isinstance(
+                        rt, (ObjectType, InterfaceType, UnionType)) else ""
+                    try:
+                        r = graphql_blocking(
+                            new, "query($v: %s) { %s(%s: $v)%s }" % (
+                                tstr, qf, an, sub),
+                            variables={"v": [payload] if wrap else payload})
+                        resp = r.response()
+                        refused = bool(resp.get("errors")) and \
+                            resp.get("data") is None and any(
+                                fname_h in e.get("message", "")
+                                for e in resp["errors"])
+                    except SchemaValidationError:
+                        refused = True
+                    res.count("probe:hidden_input_field_through_variable")
+                    if not refused:
+                        fail("removed_reachable", ("input_field", "variable"),
+                             "input field %s.%s is hidden, yet a variable "
+                             "carrying it is accepted by %s(%s:)" % (
+                                 tn, fname_h, qf, an))
+                        break
 
         # ---- nothing else disappeared ----------------------------------------
         if op in (0, 1, 2, 3, 4, 6):
